@@ -63,7 +63,7 @@ Definition css_accepts (p : string) (k : nat) (v : Q) (i : bool) : bool :=
 Definition impl_accepts (p : string) (k : nat) (v : Q) (i : bool) : bool :=
   if str_in p INT_GE_1 then Nat.eqb k 0 && i && at_least 1 v
   else if str_in p INT_ANY then Nat.eqb k 0 && i
-  else if str_in p NUM_GE_0 then Nat.eqb k 0                                   (* any number: finding F133 *)
+  else if str_in p NUM_GE_0 then Nat.eqb k 0 && nonneg v
   else if str_in p LP_GE_0 then (length_like k v || Nat.eqb k 2) && nonneg v
   else if str_in p L_GE_0 then length_like k v && nonneg v
   else if str_in p LP_ANY then length_like k v || Nat.eqb k 2
